@@ -1612,6 +1612,84 @@ def rule_a14(ctx):
 
 
 
+S4_SUBMIT = ("nni_pipe_send", "nng_stream_send", "nng_udp_send", "nni_pipe_recv", "nng_stream_recv", "nng_udp_recv",
+             "nni_msgq_aio_put", "nni_msgq_aio_get")
+
+
+def rule_s4(ctx):
+    from .. import guards as G
+    r = ctx.rule("C02.S4", "T2", "a busy latch is released by the completion it waits for: where a function sets a boolean `busy` field "
+                 "of an object and submits one of that object's own aios (one transfer in flight; everything else queues behind "
+                 "the latch), the callback of that aio, on every path to its exit, clears the latch (itself or through a helper "
+                 "of the same file), submits the aio again (still busy), or closes the pipe -- a completion that returns early "
+                 "(e.g. on a transient error) leaves the latch set: nothing is ever submitted again and everything queued "
+                 "behind it waits for ever", floor=5)
+    prog = ctx.prog
+    cbof = {}
+    for (g, aio_e, cb, arg, site) in prog.aio_callbacks():
+        lf = last_field(aio_e)
+        if lf:
+            cbof[lf] = (cb, g.file)
+    pairs = set()
+    for f in prog.functions:
+        if f.cfg_failed or f.file.endswith("_test.c"):
+            continue
+        for t in f.assigns():
+            l = t.node["lhs"]
+            if l.get("k") != "mem" or (l.get("t") or "") not in ("bool", "_Bool") or "busy" not in l["f"]:
+                continue
+            if const_of(f.expand(t.node["rhs"])) in (None, 0):
+                continue
+            after = f.reach((t.b, t.i + 1))
+            for c in f.calls(S4_SUBMIT):
+                if (c.b, c.i) in after or c.b == t.b:
+                    for a in c.node["args"]:
+                        a = f.expand(a) if a is not None else None
+                        lf = last_field(a) if a is not None else None
+                        if lf and lf.split(".")[0] == l.get("rec") and lf in cbof:
+                            pairs.add((last_field(l), lf) + cbof[lf])
+    if len(pairs) < 5:
+        raise AnalysisBroken("only %d busy-latch / aio pairs found" % len(pairs))
+
+    def clears(h, latch):
+        return {(t.b, t.i) for t in h.assigns() if t.node["lhs"].get("k") == "mem" and last_field(t.node["lhs"]) == latch and
+                const_of(h.expand(t.node["rhs"])) == 0}
+    for latch, aio_f, cb, file in sorted(pairs):
+        g = prog.need(cb, file)
+        ok = set(clears(g, latch))
+        for c in g.calls():
+            fn_ = c.node.get("fn")
+            if fn_ == "nni_pipe_close":
+                ok.add((c.b, c.i))
+            elif fn_ in S4_SUBMIT and any(a is not None and last_field(g.expand(a)) == aio_f for a in c.node["args"]):
+                ok.add((c.b, c.i))
+            elif fn_:
+                h = prog.resolve(g, fn_)
+                if h is not None and h is not g and h.file == g.file and not h.cfg_failed:
+                    hc = clears(h, latch)
+                    hs = {(k.b, k.i) for k in h.calls(S4_SUBMIT) if any(a is not None and last_field(h.expand(a)) == aio_f for a in k.node["args"])}
+                    if (hc or hs) and G.must_pass(h, (h.entry, 0), hc | hs) is None:
+                        ok.add((c.b, c.i))
+        shut = {}       # the object is being torn down (its closed flag is set): nothing will be started again anyway
+        for b_ in g.blocks.values():
+            cc = g.cond(b_.id) if b_.term and len(b_.succs) == 2 else None
+            if cc is not None:
+                t_ = truth_of(cc, lambda n_: n_.get("k") == "mem" and n_["f"] == "closed")
+                if t_:
+                    shut[b_.id] = 0 if t_ > 0 else 1
+        off = G.must_pass(g, (g.entry, 0), ok, cut=shut)
+        if off is None:
+            r.ob(g, "%s released (or the transfer continued / the pipe closed) on every path of the callback of %s" % (latch, aio_f))
+        else:
+            path = g.find_path((g.entry, 0), lambda b, i: (b, i) == (g.exit, 0), blocked=lambda b, i, e: (b, i) in ok,
+                               edge_ok=lambda b, k: not (b in shut and shut[b] == k))
+            ctx.fail(r, g, "%s left set by the completion" % latch, g.line,
+                     "%s, the callback of %s, can return without clearing %s, without submitting the aio again and without closing "
+                     "the pipe: the latch stays set, so nothing is ever started again and whatever is queued behind it never "
+                     "goes out" % (g.name, aio_f, latch), g.path_lines(path))
+
+
+
 def run(ctx):   # noqa: F811
     ctx.guard(rule_a1)
     ctx.guard(rule_a2)
@@ -1633,3 +1711,4 @@ def run(ctx):   # noqa: F811
     ctx.guard(rule_a12)
     ctx.guard(rule_a13)
     ctx.guard(rule_a14)
+    ctx.guard(rule_s4)
